@@ -454,6 +454,9 @@ def run(chk):
     chk.ob("C13.R4:typed-casts", "the sinks read well-known values with the typed cast (typed, else parsed from text), never with a bare downcast", typed_casts_only)
 
     common.arg_agreement_rule(chk, P, "C13", [("emit_otlp", None), ("emit_term", None)], 30)
+    common.variant_arm_agreement_rule(chk, P, "C13.R3:encoding-arms", "protobuf arms use the protobuf encoder and label, JSON arms the JSON ones (the two "
+                                      "encodings denote the same records only if neither is mislabelled)",
+                                      lambda b: b.crate == "emit_otlp" and "generated" not in b.file and "::tests::" not in b.key, ("Proto", "Json"), 8)
     return chk
 
 
